@@ -1050,3 +1050,189 @@ Proof.
   - intros H. specialize (H [] eq_refl). discriminate.
   - exists sc_names, []. vm_compute. repeat split; reflexivity.
 Qed.
+
+(* ------------------------------------------------------------------ columns of independent length *)
+Lemma early_reach v sc s : early sc = true -> reach v sc s -> s = init sc \/ s = set_mp (init sc) MExc.
+Proof.
+  intros Ee R. induction R as [|s s' R IH St]; [left; reflexivity|].
+  destruct IH as [->| ->]; destruct St as [St|St]; unfold step_main, step_writer in St; simpl in St;
+    try rewrite Ee in St; try discriminate.
+  right. injection St as <-. reflexivity.
+Qed.
+
+Lemma all_eq_cons n others : all_eq (n :: others) = true <-> Forall (fun L => L = n) others.
+Proof.
+  simpl. rewrite forallb_forall, Forall_forall. split; intros H x Hx.
+  - symmetry. apply Nat.eqb_eq. exact (H x Hx).
+  - apply Nat.eqb_eq. symmetry. exact (H x Hx).
+Qed.
+
+Lemma first_bad_none sl : first_bad sl = None <-> Forall (fun x => all_eq x = true) sl.
+Proof.
+  induction sl as [|x r IH]; simpl; [split; auto|].
+  destruct (all_eq x) eqn:E.
+  - split.
+    + intros H. constructor; [exact E|]. apply IH. destruct (first_bad r); [discriminate|reflexivity].
+    + intros H. inversion H; subst. apply IH in H3. rewrite H3. reflexivity.
+  - split; [discriminate|]. intros H. inversion H; subst. congruence.
+Qed.
+
+Lemma first_bad_lt sl : forall c, first_bad sl = Some c -> c < length sl.
+Proof.
+  induction sl as [|x r IH]; simpl; intros c; [discriminate|].
+  destruct (all_eq x).
+  - destruct (first_bad r) as [k|]; simpl; [|discriminate]. intros [= <-]. specialize (IH k eq_refl). lia.
+  - intros [= <-]. lia.
+Qed.
+
+(* the chunks of n records: c is one of them exactly if it starts before the end *)
+Lemma chunk_index n cs c : 0 < cs -> (c < nchunks_of n cs <-> c * cs < n).
+Proof.
+  intros Hcs. unfold nchunks_of.
+  pose proof (Nat.div_mod (n + (cs - 1)) cs ltac:(lia)) as Hd.
+  pose proof (Nat.mod_upper_bound (n + (cs - 1)) cs ltac:(lia)) as Hm.
+  set (q := (n + (cs - 1)) / cs) in *. set (r := (n + (cs - 1)) mod cs) in *.
+  split; intros H.
+  - assert (cs * (c + 1) <= cs * q) by (apply Nat.mul_le_mono_l; lia). nia.
+  - destruct (Nat.lt_ge_cases c q) as [L|G]; [exact L|].
+    assert (cs * q <= cs * c) by (apply Nat.mul_le_mono_l; lia). nia.
+Qed.
+
+(* one other column of length L next to n records: its slices have the length of the slices of the right
+   ascension in EVERY chunk exactly if it is as long, or longer while n is a multiple of the chunk size *)
+Lemma slices_agree n L cs : 0 < cs ->
+  (forall c, c * cs < n -> slice_len L (c * cs) (c * cs + cs) = slice_len n (c * cs) (c * cs + cs)) <->
+  (L = n \/ (n < L /\ n mod cs = 0)).
+Proof.
+  intros Hcs. unfold slice_len. split.
+  - intros H. destruct (Nat.lt_trichotomy L n) as [Lt|[Eq|Gt]]; [exfalso| left; exact Eq | right; split; [exact Gt|]].
+    + pose proof (Nat.div_mod L cs ltac:(lia)) as Hd.
+      pose proof (Nat.mod_upper_bound L cs ltac:(lia)) as Hm.
+      specialize (H (L / cs)). rewrite (Nat.mul_comm (L / cs) cs) in H.
+      assert (cs * (L / cs) < n) as Hc by lia. specialize (H Hc). lia.
+    + destruct (n mod cs) eqn:Em; [reflexivity|exfalso].
+      pose proof (Nat.div_mod n cs ltac:(lia)) as Hd.
+      pose proof (Nat.mod_upper_bound n cs ltac:(lia)) as Hm.
+      specialize (H (n / cs)). rewrite (Nat.mul_comm (n / cs) cs) in H.
+      assert (cs * (n / cs) < n) as Hc by lia. specialize (H Hc). lia.
+  - intros [->|[Gt Em]] c Hc; [reflexivity|].
+    pose proof (Nat.div_mod n cs ltac:(lia)) as Hd. rewrite Em in Hd.
+    assert (c < n / cs) as Hlt.
+    { destruct (Nat.lt_ge_cases c (n / cs)) as [A|A]; [exact A|].
+      assert (cs * (n / cs) <= cs * c) by (apply Nat.mul_le_mono_l; lia). lia. }
+    assert (cs * (c + 1) <= cs * (n / cs)) by (apply Nat.mul_le_mono_l; lia). lia.
+Qed.
+
+Lemma chunk_ok n others cs c :
+  all_eq (chunk_lens (n :: others) cs c) = true <->
+  Forall (fun L => slice_len L (c * cs) (c * cs + cs) = slice_len n (c * cs) (c * cs + cs)) others.
+Proof.
+  unfold chunk_lens. simpl map. rewrite all_eq_cons, !Forall_forall. split; intros H x Hx.
+  - apply H. apply in_map_iff. exists x. split; [reflexivity|exact Hx].
+  - apply in_map_iff in Hx. destruct Hx as (L & <- & HL). exact (H L HL).
+Qed.
+
+(* what the per-chunk comparison alone lets through: exactly the columns that are all as long as the right
+   ascension, or longer while the record count is an exact multiple of the chunk size *)
+Theorem chunk_check_misses_iff n others cs : 0 < cs ->
+  first_bad (slices_of (n :: others) cs) = None <-> slips_through n cs others.
+Proof.
+  intros Hcs. rewrite first_bad_none. unfold slices_of, slips_through. simpl nrec.
+  rewrite !Forall_forall. split.
+  - intros H L HL. apply (slices_agree n L cs Hcs). intros c Hc.
+    assert (In (chunk_lens (n :: others) cs c) (map (chunk_lens (n :: others) cs) (seq 0 (nchunks_of n cs)))) as Hi.
+    { apply in_map. apply in_seq. apply (chunk_index n cs c Hcs) in Hc. lia. }
+    specialize (H _ Hi). apply chunk_ok in H. rewrite Forall_forall in H. exact (H L HL).
+  - intros H x Hx. apply in_map_iff in Hx. destruct Hx as (c & <- & Hc). apply in_seq in Hc.
+    apply chunk_ok. apply Forall_forall. intros L HL.
+    apply (proj2 (slices_agree n L cs Hcs) (H L HL)). apply (chunk_index n cs c Hcs). lia.
+Qed.
+
+Lemma slices_length lens cs : length (slices_of lens cs) = nchunks_of (nrec lens) cs.
+Proof. unfold slices_of. rewrite map_length, seq_length. reflexivity. Qed.
+
+Lemma all_eq_const n (others : list nat) : all_eq (n :: map (fun _ => n) others) = true.
+Proof. apply all_eq_cons. apply Forall_forall. intros x Hx. apply in_map_iff in Hx. destruct Hx as (? & <- & _). reflexivity. Qed.
+
+(* ... and treats them exactly as the table cut down to the length of the right ascension: the same scenario,
+   hence the same executions and the same outcome in both modes *)
+Theorem chunk_check_only_truncates n others cs p ow ea ec : 0 < cs -> slips_through n cs others ->
+  cols_scen (chunk_check_only (n :: others) cs) p ow ea ec =
+  cols_scen (SrcUpFront (n :: map (fun _ => n) others) cs) p ow ea ec.
+Proof.
+  intros Hcs H. apply (chunk_check_misses_iff n others cs Hcs) in H.
+  unfold cols_scen, chunk_check_only. rewrite H, slices_length, all_eq_const. simpl. rewrite Bool.orb_false_r.
+  reflexivity.
+Qed.
+
+(* every other pair of unequal columns is caught by the per-chunk comparison, in one of the chunks *)
+Theorem chunk_check_catches n others cs p ow ea ec : 0 < cs -> ~ slips_through n cs others ->
+  must_raise (cols_scen (chunk_check_only (n :: others) cs) p ow ea ec) = true.
+Proof.
+  intros Hcs H. destruct (first_bad (slices_of (n :: others) cs)) as [c|] eqn:E.
+  - pose proof (first_bad_lt _ _ E) as Hlt.
+    unfold must_raise, cols_scen, chunk_check_only. rewrite E. unfold mfault. simpl.
+    rewrite seq_length. apply Nat.ltb_lt in Hlt. rewrite Hlt. simpl. rewrite Bool.orb_true_r. reflexivity.
+  - exfalso. apply H. apply (chunk_check_misses_iff n others cs Hcs). exact E.
+Qed.
+
+(* the up-front comparison is complete: whatever the lengths, the chunk size, the path, the mode - unequal columns
+   raise before anything starts, nothing is touched at any moment, and the statement asks for exactly that *)
+Theorem upfront_check_complete lens cs p ow ea ec : all_eq lens = false ->
+  let sc := cols_scen (SrcUpFront lens cs) p ow ea ec in
+  cols_unequal (SrcUpFront lens cs) = true /\ must_raise sc = true /\
+  (forall v, seq_run v sc = (Raise, p)) /\
+  (forall v s, reach v sc s -> dk s = p) /\
+  (forall v s, reach v sc s -> final s = true -> outcome_of s = Raise) /\
+  (forall v s, reach v sc s -> ~ stuck v sc s).
+Proof.
+  intros H sc.
+  assert (early sc = true) as Ee by (unfold sc, cols_scen; simpl; rewrite H; apply Bool.orb_true_r).
+  repeat split.
+  - simpl. rewrite H. reflexivity.
+  - unfold must_raise. rewrite Ee. reflexivity.
+  - intros v. unfold seq_run. rewrite Ee. reflexivity.
+  - intros v s R. destruct (early_reach v sc s Ee R) as [->| ->]; reflexivity.
+  - intros v s R F. destruct (early_reach v sc s Ee R) as [->| ->]; [discriminate|reflexivity].
+  - intros v s R (F & St). destruct (early_reach v sc s Ee R) as [->| ->]; [|discriminate].
+    apply (St (set_mp (init sc) MExc)). left. unfold step_main. cbn [init mp]. rewrite Ee. reflexivity.
+Qed.
+
+(* equal columns: the scenario of the source is the plain one *)
+Theorem equal_columns_plain lens cs p ow ea ec : all_eq lens = true ->
+  cols_scen (SrcUpFront lens cs) p ow ea ec = mk_scen (nchunks_of (nrec lens) cs) None p ow ea ec.
+Proof. intros H. unfold cols_scen. rewrite H. simpl. rewrite Bool.orb_false_r. reflexivity. Qed.
+
+(* the per-chunk comparison alone is not enough: columns of unequal length for which the repaired pipeline behind it
+   returns a catalog in both modes, and no returned observation satisfies the statement *)
+Theorem chunk_check_alone_returns n others cs : 0 < cs -> 0 < n -> slips_through n cs others ->
+  all_eq (n :: others) = false ->
+  let judged_sc := cols_scen (SrcUpFront (n :: others) cs) TAbsent false false false in
+  let run_sc := cols_scen (chunk_check_only (n :: others) cs) TAbsent false false false in
+  must_raise judged_sc = true /\
+  fst (seq_run v_fix run_sc) = Return (input run_sc, true) /\
+  (forall s, reach v_fix run_sc s -> final s = true -> outcome_of s = Return (input run_sc, true)) /\
+  (forall k c untouched opens, spec_ok judged_sc (ORet k c) untouched opens = false).
+Proof.
+  intros Hcs Hn Hs Hne judged_sc run_sc.
+  assert (must_raise judged_sc = true) as Hj.
+  { assert (early judged_sc = true) as He by (unfold judged_sc, cols_scen; cbn [early mk_scen]; rewrite Hne; reflexivity).
+    unfold must_raise. rewrite He. reflexivity. }
+  assert (run_sc = mk_scen (nchunks_of n cs) None TAbsent false false false) as Hr.
+  { unfold run_sc. rewrite (chunk_check_only_truncates n others cs _ _ _ _ Hcs Hs).
+    rewrite equal_columns_plain by apply all_eq_const. reflexivity. }
+  assert (must_raise run_sc = false) as Hm by (rewrite Hr; reflexivity).
+  repeat split.
+  - exact Hj.
+  - rewrite seq_fix_outcome, Hm. reflexivity.
+  - intros s R F. rewrite (seq_par_same_outcome run_sc s R F), seq_fix_outcome, Hm. reflexivity.
+  - intros k c u o. unfold spec_ok, cl_return_exact. rewrite Hj. simpl. reflexivity.
+Qed.
+
+Theorem chunk_check_alone_refuted : exists lens cs,
+  cols_unequal (SrcUpFront lens cs) = true /\
+  cols_unequal (chunk_check_only lens cs) = false /\
+  must_raise (cols_scen (SrcUpFront lens cs) TAbsent false false false) = true /\
+  seq_run v_fix (cols_scen (chunk_check_only lens cs) TAbsent false false false) = (Return ([1; 2], true), TDir false [1; 2] true) /\
+  par_all v_fix (cols_scen (chunk_check_only lens cs) TAbsent false false false) = Some (Return ([1; 2], true), TDir false [1; 2] true).
+Proof. exists [4; 6; 4], 2. vm_compute. repeat split; reflexivity. Qed.
